@@ -10,12 +10,14 @@ package main
 
 import (
 	"context"
+	"encoding/json"
 	"errors"
 	"fmt"
 	"io"
 	"log/slog"
 	"math/rand"
 	"net/http"
+	"sort"
 	"strings"
 	"sync"
 	"time"
@@ -58,6 +60,7 @@ type ctl struct {
 	injected  int
 	drift     string
 	scriptAt  int
+	warm      bool      // the prior phase is running
 	mounts    int       // cross-repository mount requests seen so far
 	slowUntil time.Time // after an injected fault the client sleeps in a back-off: settle more patiently
 }
@@ -111,6 +114,9 @@ func (c *ctl) override(p *pend) *simreg.Reply {
 	if p.class == "mount_post" {
 		return c.mountPolicy(p)
 	}
+	if c.sc.ListOrder != "" && c.sc.PageSize == 0 && (p.rq.Class == "tag_list" || p.rq.Class == "referrers") {
+		return c.listing(p)
+	}
 	if c.sc.Cancel202 == 0 || p.rq.Class != "upload_delete" {
 		return nil
 	}
@@ -128,6 +134,91 @@ func (c *ctl) override(p *pend) *simreg.Reply {
 		return nil
 	}
 	return &simreg.Reply{Status: 202}
+}
+
+// permute orders a sorted list the way the scenario's registry lists things.
+func (c *ctl) permute(l []string, isDigestTag func(string) bool) []string {
+	out := append([]string(nil), l...)
+	switch c.sc.ListOrder {
+	case "rev":
+		for i, j := 0, len(out)-1; i < j; i, j = i+1, j-1 {
+			out[i], out[j] = out[j], out[i]
+		}
+	case "ins": // creation order: the named tags first, what was attached to them (digest tags) afterwards
+		a, b := []string{}, []string{}
+		for _, t := range out {
+			if isDigestTag(t) {
+				b = append(b, t)
+			} else {
+				a = append(a, t)
+			}
+		}
+		out = append(a, b...)
+	case "rand":
+		r := rand.New(rand.NewSource(c.sc.Seed + int64(len(l))))
+		r.Shuffle(len(out), func(i, j int) { out[i], out[j] = out[j], out[i] })
+	}
+	return out
+}
+
+// listing answers tags/list and the referrers API in the order of the scenario (simreg always sorts; the
+// distribution spec only recently asked for an order of tag listings and never for one of referrers).
+// Unpaged requests only.  c.mu held.
+func (c *ctl) listing(p *pend) *simreg.Reply {
+	h := c.w.net.Host(p.rq.Host)
+	if h == nil || p.rq.Query.Get("n") != "" || p.rq.Query.Get("last") != "" {
+		return nil
+	}
+	hdr := http.Header{}
+	hdr.Set("Content-Type", "application/json")
+	if p.rq.Class == "tag_list" {
+		h.Lock()
+		r := h.Repos[p.rq.Repo]
+		tags := []string{}
+		if r != nil {
+			for t := range r.Tags {
+				tags = append(tags, t)
+			}
+		}
+		h.Unlock()
+		if r == nil {
+			return nil
+		}
+		sort.Strings(tags)
+		tags = c.permute(tags, func(t string) bool { return strings.HasPrefix(t, "sha256-") || strings.HasPrefix(t, "sha512-") })
+		b, _ := json.Marshal(map[string]any{"name": p.rq.Repo, "tags": tags})
+		return &simreg.Reply{Status: 200, Header: hdr, Body: b}
+	}
+	// referrers API of the source repository, from the driver's own knowledge of the source
+	if c.w.srcHost == nil || p.rq.Host != c.w.srcHost.Name || p.rq.Repo != c.w.srcRepo || !c.w.srcHost.Feat.ReferrersAPI {
+		return nil
+	}
+	names := []string{}
+	for _, r := range c.w.refs {
+		if c.w.nodes[r[1]].Dig == p.rq.Ref {
+			names = append(names, r[0])
+		}
+	}
+	sort.Strings(names)
+	filter := p.rq.Query.Get("artifactType")
+	ms := []any{}
+	for _, n := range c.permute(names, func(string) bool { return false }) {
+		nd := c.w.nodes[n]
+		if filter != "" && nd.AType != filter {
+			continue
+		}
+		d := map[string]any{"mediaType": nd.MT, "digest": nd.Dig, "size": len(nd.Raw)}
+		if nd.AType != "" {
+			d["artifactType"] = nd.AType
+		}
+		ms = append(ms, d)
+	}
+	if filter != "" {
+		hdr.Set("OCI-Filters-Applied", "artifactType")
+	}
+	hdr.Set("Content-Type", mtOCIIndex)
+	b, _ := json.Marshal(map[string]any{"schemaVersion": 2, "mediaType": mtOCIIndex, "manifests": ms})
+	return &simreg.Reply{Status: 200, Header: hdr, Body: b}
 }
 
 // mountPolicy makes the registry's answer to a cross-repository mount a per-request decision (simreg's
@@ -208,6 +299,11 @@ func (c *ctl) intercept(rq *simreg.Request) *simreg.Reply {
 	}
 	p := &pend{rq: rq, side: side, class: class, n: n, ch: make(chan *simreg.Reply, 1)}
 	c.mu.Lock()
+	if c.warm {
+		// the client's earlier activity (scenario field prior): served at once, not part of the trace
+		c.mu.Unlock()
+		return nil
+	}
 	if c.dead {
 		c.mu.Unlock()
 		return &simreg.Reply{Err: errRefused}
@@ -697,7 +793,7 @@ func runScenario(sc *scenario, scratch string) (*vtrace.Trace, error) {
 		"srcdir":  b2i(w.srcIsDir), "tgtdir": b2i(w.tgtIsDir),
 		"force": b2i(sc.Opts.Force != 0), "referrers": b2i(sc.Opts.Referrers != 0), "dtags": b2i(sc.Opts.DTags != 0),
 		"inclext": b2i(sc.Opts.InclExt != 0), "fast": b2i(sc.Opts.Fast != 0), "plats": b2i(len(plats) > 0),
-		"tagged": b2i(sc.TgtByDigest == 0), "faultfree": b2i(faultfree), "transient": b2i(transient), "reftgt": b2i(w.refsTgt != ""),
+		"tagged": b2i(sc.TgtByDigest == 0), "faultfree": b2i(faultfree), "transient": b2i(transient), "reftgt": b2i(w.refsTgt != ""), "refapi_tgt": b2i(sc.RefAPITgt != 0),
 	}
 
 	// ----- the client under test
@@ -796,6 +892,41 @@ func runScenario(sc *scenario, scratch string) (*vtrace.Trace, error) {
 				}
 			}
 		}))
+	}
+
+	// ----- what the same client did before (its caches and feature memos carry over)
+	if sc.Prior != "" && w.tgtHost != nil && !w.sameRepo() {
+		c.mu.Lock()
+		c.warm = true
+		c.mu.Unlock()
+		rec.mu.Lock()
+		rec.muted = true
+		rec.mu.Unlock()
+		switch sc.Prior {
+		case "copy":
+			if w.refsTgt != "" {
+				break // (the referrer target is observed from its initial state)
+			}
+			if rWarm, err := ref.New(w.tgtHost.Name + "/proj/warm:" + tgtTag); err == nil {
+				_ = rc.ImageCopy(ctx, rSrc, rWarm, opts...)
+			}
+		case "get":
+			if !w.srcIsDir {
+				for _, k := range w.order {
+					if n := w.nodes[k]; n.isMan() && !strings.HasPrefix(k, "OLD") {
+						if r, err := ref.New(hostA + "/" + srcRepo + "@" + n.Dig); err == nil {
+							_, _ = rc.ManifestGet(ctx, r)
+						}
+					}
+				}
+			}
+		}
+		c.mu.Lock()
+		c.warm = false
+		c.mu.Unlock()
+		rec.mu.Lock()
+		rec.muted = false
+		rec.mu.Unlock()
 	}
 
 	done := make(chan struct{})
